@@ -872,6 +872,19 @@ def _workload(tier, rng, shard, nshards):
                 _ = (live == t, t == live)
         # validate: clean, then corruptions through public attributes and the entry list
         call(t.validate, rng.choice(("silence", "warning", "error")))
+        if rng.random() < 0.06:
+            # a point tier built from its marks alone: one mark (or several on one instant) makes a tier whose span is that instant -
+            # nothing lies outside it, nothing is out of order; the same inside a textgrid of such tiers
+            from praatio.data_classes.point_tier import PointTier as _PT
+            from praatio.data_classes.textgrid import Textgrid as _TG
+
+            x_ = rng.choice([1.0, 0.0, rng.randrange(1, 500) / 100])
+            lone = _PT("lone", [(x_, "a")] + ([(x_, "b")] if rng.random() < 0.3 else []))
+            REC.cls("C15:validate:point-tier-whose-span-is-one-instant")
+            call(lone.validate, rng.choice(("silence", "warning", "error")))
+            tgl = _TG()
+            tgl.addTier(lone, reportingMode="silence")
+            call(tgl.validate, rng.choice(("silence", "warning", "error")))
         bad = t.new()
         c = rng.choice(["span", "order", "out-of-span", "degenerate", "overlap"])
         if c == "span":
